@@ -36,3 +36,6 @@ def run(rep: Report, repo: Repo, tier: str) -> None:
         with rep.isolated():
             trace_rules.rule_kwargs_traces(rep, repo, "C03-I")
 
+    # the end commands pop whether or not a doccomment stands in front of them (entry protocol of every command kind)
+    with rep.isolated():
+        protocol.rule_protocol_default(rep, repo, "C03-R8")
